@@ -1,6 +1,9 @@
 import Moclo.Proofs.Assembly
 import Moclo.Props.C03
 import Moclo.Tables.Enzymes
+import Moclo.Proofs.Flank
+import Moclo.Proofs.RevComp
+import Moclo.Props.C02
 /-!
 # C01 — assembly yields exactly the Golden Gate ligation product
 
@@ -58,6 +61,118 @@ theorem structures_are_closed_forms :
   simp only [Bool.and_eq_true, decide_eq_true_eq, beq_iff_eq] at h
   obtain ⟨⟨⟨⟨⟨⟨⟨⟨⟨⟨_, a⟩, b⟩, c⟩, d⟩, e⟩, f⟩, _⟩, _⟩, _⟩, _⟩ := h
   exact ⟨e, f, d, c, b, a⟩
+
+/-- letters the wildcard `N` accepts (A, C, G, T, N in either case) -/
+def Plain (w : Word) : Prop := ∀ x ∈ w, clsMatch .N x = true
+
+/-- **what a well-formed module is typed as, for every geometry, every sequence and every rotation**:
+let the plasmid be any rotation of `site·x·o5·t·o3·y·rc(site)·b` with `|x| = |y| = off`, `|o5| = |o3| = k`,
+`|t| ≥ 2`, carrying exactly the structure once (`UniqueFit`) and passing the illegal-site screen.  Then the
+generic module class reports upstream overhang `o5`, downstream overhang `o3` and target `o5·t` — module
+backbone and recognition sites contribute nothing -/
+theorem module_canonical (g : Geom) (S x o5 t o3 y S' b : Word)
+    (hS : matchesAt g.site S) (hSl : S.length = g.site.length)
+    (hS' : matchesAt (rcNt g.site) S') (hS'l : S'.length = g.site.length)
+    (hx : x.length = g.off) (hy : y.length = g.off) (ho5 : o5.length = g.k) (ho3 : o3.length = g.k)
+    (ht : 2 ≤ t.length) (hplain : Plain (x ++ o5 ++ t ++ o3 ++ y))
+    (hfit : UniqueFit (moduleStructure g) (S ++ x ++ o5 ++ t ++ o3 ++ y ++ S' ++ b))
+    (hscreen : validCuts g (S ++ x ++ o5 ++ t ++ o3 ++ y ++ S') ≤ 2) (r : Nat) :
+    C02.report { kind := .module, pat := moduleStructure g, geom := g }
+      (rotr (S ++ x ++ o5 ++ t ++ o3 ++ y ++ S' ++ b) r) = .ok (o5, o3, o5 ++ t, o5 ++ t) := by
+  set w := S ++ x ++ o5 ++ t ++ o3 ++ y ++ S' ++ b with hw
+  set c : ClassSpec := { kind := .module, pat := moduleStructure g, geom := g } with hc
+  have h3 : C02.ThreeGroups c.pat := C02.generic_three_groups .module g
+  -- split t = t0 :: tm ++ [tl]
+  obtain ⟨t0, tm, tl, rfl⟩ : ∃ t0 tm tl, t = t0 :: (tm ++ [tl]) := by
+    cases t with
+    | nil => simp at ht
+    | cons a rest =>
+      cases h : rest.reverse with
+      | nil => have := List.reverse_eq_nil_iff.mp h; subst this; simp at ht
+      | cons l rr => exact ⟨a, rr.reverse, l, by rw [← List.reverse_reverse rest, h]; simp⟩
+  have hp := hplain
+  unfold Plain at hp
+  have core : S ++ x ++ o5 ++ (t0 :: (tm ++ [tl])) ++ o3 ++ y ++ S' =
+      S ++ (x ++ o5 ++ [t0]) ++ tm ++ ([tl] ++ o3 ++ y) ++ S' := by simp [List.append_assoc]
+  obtain ⟨ms, hrun⟩ := module_fits g S (x ++ o5 ++ [t0]) tm ([tl] ++ o3 ++ y) S' hS hSl hS' hS'l
+    (fun z hz => hp z (by simp at hz ⊢; tauto)) (by simp [hx, ho5]; omega)
+    (fun z hz => hp z (by simp at hz ⊢; tauto))
+    (fun z hz => hp z (by simp at hz ⊢; tauto)) (by simp [ho3, hy]; omega)
+  rw [← core] at hrun
+  -- the same run on the whole plasmid (window at 0)
+  have hw0 : window w 0 = w := by
+    rw [window_eq_rotate w 0 (Nat.zero_le _)]; simp
+  have hrunw : Run (moduleStructure g) (window w 0) 0 ms
+      (S ++ x ++ o5 ++ (t0 :: (tm ++ [tl])) ++ o3 ++ y ++ S').length := by
+    rw [hw0, hw]; exact Run.extend hrun b
+  -- uniqueness: the search finds exactly this fit
+  obtain ⟨i, ms', e', rel, hi, hr', hrel, hrev, hsearch, huniq⟩ := search_of_uniqueFit hfit
+  have hwpos : 0 < w.length := by omega
+  obtain ⟨ei, em, ee⟩ := huniq 0 ms _ hwpos hrunw
+  subst ei
+  have hustart : UniqueStart c.pat w := by
+    refine ⟨0, hwpos, by rw [show c.pat = moduleStructure g from rfl, hrel]; rfl, ?_⟩
+    intro j hj hsome
+    obtain ⟨rj, hrj⟩ := Option.isSome_iff_exists.mp hsome
+    obtain ⟨mj, ej, hrunj, _⟩ := relMatch_run hrj
+    exact (huniq j mj ej hj hrunj).1
+  rw [C02.report_rotr c w r h3 hustart]
+  have hmarks := (module_run_marks g hrunw).1
+  rw [C02.report_of_view (c := c) h3 hwpos hrel hsearch]
+  -- the marks of the unique fit
+  have hrs : rel.reverse = ms ++ [(S ++ x ++ o5 ++ (t0 :: (tm ++ [tl])) ++ o3 ++ y ++ S').length] := by
+    rw [hrev, em, ee]
+  set L := (S ++ x ++ o5 ++ (t0 :: (tm ++ [tl])) ++ o3 ++ y ++ S').length with hL
+  have hLval : L = g.site.length + g.off + g.k + (tm.length + 2) + g.k + g.off + g.site.length := by
+    simp [hL, hSl, hS'l, hx, hy, ho5, ho3]; omega
+  rw [hrs, hmarks, hw0]
+  have hg0 : vgroup w (([g.site.length + g.off, g.site.length + g.off + g.k, g.site.length + g.off + g.k,
+      L - (g.site.length + g.off + g.k), L - (g.site.length + g.off + g.k), L - (g.site.length + g.off)]) ++ [L]) 0
+      = S ++ x ++ o5 ++ (t0 :: (tm ++ [tl])) ++ o3 ++ y ++ S' := by
+    simp only [vgroup, rspan, slice, if_true, List.drop_zero, Nat.sub_zero]
+    rw [show ([g.site.length + g.off, g.site.length + g.off + g.k, g.site.length + g.off + g.k,
+      L - (g.site.length + g.off + g.k), L - (g.site.length + g.off + g.k), L - (g.site.length + g.off)] ++ [L]).getLastD 0 = L by simp]
+    rw [hw, hL, List.take_left']
+    rfl
+  rw [hg0, if_neg (by show ¬ validCuts g _ > 2; omega)]
+  -- read the groups off the plasmid
+  have take_drop : ∀ (pre mid post : Word), ((pre ++ mid ++ post).drop pre.length).take mid.length = mid := by
+    intro pre mid post; simp [List.append_assoc]
+  simp only [ClassSpec.upGroup, ClassSpec.downGroup, vgroup, vTarget, rspan, slice, hc]
+  simp only [show (1:Nat) ≠ 0 by omega, show (2:Nat) ≠ 0 by omega, show (3:Nat) ≠ 0 by omega, if_false,
+    List.getD_cons_succ, List.getD_cons_zero, List.cons_append, List.nil_append]
+  congr 1
+  refine Prod.ext ?_ (Prod.ext ?_ (Prod.ext ?_ ?_))
+  · show (w.drop (g.site.length + g.off)).take (g.site.length + g.off + g.k - (g.site.length + g.off)) = o5
+    have := take_drop (S ++ x) o5 ((t0 :: (tm ++ [tl])) ++ o3 ++ y ++ S' ++ b)
+    simp only [List.length_append, hSl, hx, ho5] at this
+    rw [show g.site.length + g.off + g.k - (g.site.length + g.off) = g.k by omega]
+    rw [hw]; simpa [List.append_assoc] using this
+  · show (w.drop (L - (g.site.length + g.off + g.k))).take (L - (g.site.length + g.off) - (L - (g.site.length + g.off + g.k))) = o3
+    have := take_drop (S ++ x ++ o5 ++ (t0 :: (tm ++ [tl]))) o3 (y ++ S' ++ b)
+    have e1 : (S ++ x ++ o5 ++ (t0 :: (tm ++ [tl]))).length = L - (g.site.length + g.off + g.k) := by
+      simp [hLval, hSl, hx, ho5]; omega
+    rw [e1, ho3] at this
+    rw [show L - (g.site.length + g.off) - (L - (g.site.length + g.off + g.k)) = g.k by omega]
+    rw [hw]; simpa [List.append_assoc] using this
+  · show (w.drop (g.site.length + g.off)).take (L - (g.site.length + g.off + g.k) - (g.site.length + g.off)) = o5 ++ t0 :: (tm ++ [tl])
+    have := take_drop (S ++ x) (o5 ++ (t0 :: (tm ++ [tl]))) (o3 ++ y ++ S' ++ b)
+    simp only [List.length_append, hSl, hx, ho5, List.length_cons, List.length_nil] at this
+    rw [show L - (g.site.length + g.off + g.k) - (g.site.length + g.off) = g.k + (tm.length + (0 + 1) + 1) by omega]
+    rw [hw]; simpa [List.append_assoc] using this
+  · -- placeholder expression = group 1 ++ group 2 = o5 ++ t
+    show (w.drop (g.site.length + g.off)).take (g.site.length + g.off + g.k - (g.site.length + g.off)) ++
+      (w.drop (g.site.length + g.off + g.k)).take (L - (g.site.length + g.off + g.k) - (g.site.length + g.off + g.k))
+      = o5 ++ t0 :: (tm ++ [tl])
+    have h1 := take_drop (S ++ x) o5 ((t0 :: (tm ++ [tl])) ++ o3 ++ y ++ S' ++ b)
+    have h2 := take_drop (S ++ x ++ o5) (t0 :: (tm ++ [tl])) (o3 ++ y ++ S' ++ b)
+    simp only [List.length_append, hSl, hx, ho5, List.length_cons, List.length_nil] at h1 h2
+    rw [show g.site.length + g.off + g.k - (g.site.length + g.off) = g.k by omega,
+      show L - (g.site.length + g.off + g.k) - (g.site.length + g.off + g.k) = tm.length + (0 + 1) + 1 by omega]
+    rw [hw]
+    congr 1
+    · simpa [List.append_assoc] using h1
+    · simpa [List.append_assoc] using h2
 
 /-! non-vacuity: a complete BsaI-like assembly on a toy geometry (site `GA`, off 1, k 2) evaluated by the
 model: vector `N(NN)(N TC N* GA N)(NN)N`, one module, product = module fragment ++ vector fragment -/
